@@ -10,7 +10,11 @@ import vlib
 LEVEL_TEXT = ('Lean 4 theorems, for all shapes/offsets/data: extent queries = sets of pixel coordinates; product = pointwise product of '
               'embeddings; merge = sum (also for 0-d fields at the origin); reduce terminates (fuel = number of fields), preserves the '
               'total and yields pairwise non-overlapping fields — unconditionally for collections of 0-d fields; boundary = bounding '
-              'box (max side never below 0); public merge/overlap = refusal rule + _merge / extent test + reduce count; insert adds '
+              'box (max side never below 0); public merge = sum of the two embeddings, refused iff overlap is enforced and no pixel is '
+              'shared; public overlap = common pixel (2 fields) / reduce leaves one field carrying the total (otherwise) — their '
+              'branch tests, the dispatch of __mul__, the merge test of reduce and the step of _disjoint are generated from the '
+              'source (Gen.FieldDispatch); reduce is total for every collection with at most one field on the origin pixel (all '
+              'multi-element arrays); insert adds '
               'exactly the part of the embedding inside the target; the NumPy slice pairs of product and insert are in range and of '
               'equal shape. Index arithmetic is regenerated from extent.py/field.py on every run; the NumPy array plumbing is a hand '
               'model checked against the implementation on exact Gaussian-integer data, with operand snapshots (inputs byte-identical '
@@ -19,15 +23,17 @@ LEVEL_NOTE = ('Trusted: Lean kernel, py2lean subset semantics, NumPy slicing/bro
               'Model/FieldZ.lean, generator coverage of the correspondence. Scope: a (1,1)-array member in a group whose box is the '
               'single origin pixel makes _merge raise (NumPy); two one-element fields multiply only at equal offsets (documented '
               'rule, a scope cut of the literal statement: mul_scalar_scalar_sem_partial); insert places a one-element (1,1) field as '
-              'one pixel, not as an infinite constant, and refuses 0-d data with ValueError; the empty product is the object '
-              'Field(data=[]) whose cached extent is (0,0,0,0) — the model treats it as the zero field (recorded under "empty" in the '
-              'implementation output, not judged).')
+              'one pixel, not as an infinite constant; 0-d data is accepted only into a 0-d target at offset (0,0) (fast path, what '
+              'Wavefront.field does on a fresh wavefront) and refused with ValueError otherwise; 1-D targets are refused; the empty product is the object '
+              'Field(data=[]) whose cached extent is (0,0,0,0) — the model treats it as the zero field; it is a sentinel that the only caller '
+              '(Plane.multiply) drops, and the composition cases (product -> mul/merge/reduce/insert) drop it the same way.')
 TECHNIQUE = 'Lean 4 proof (omega/induction) over translator-regenerated index kernel + hand model with differential correspondence'
-GEN = ['Extent', 'FieldIdx', 'FieldMerge']
+GEN = ['Extent', 'FieldIdx', 'FieldMerge', 'FieldDispatch']
 OPS = ['C06']
 RULE = ('cases: extent pairs, bounding boxes (boundary) of 1..5 fields incl. wholly negative, field products (array/array, '
         'scalar/array, scalar/scalar, 0-d), merges (_merge and public merge with both enforce_overlap values, equal/different '
-        'pixelscale), reduces of 1..6 fields, public overlap of 1..6 fields, each with 0-d members, one-element fields at the '
+        'pixelscale), compositions (a product — dropped when empty, 0-d when both operands are — fed to mul/merge/reduce/insert), '
+        'inserts into 0-d and 1-D targets, reduces of 1..6 fields, public overlap of 1..6 fields, each with 0-d members, one-element fields at the '
         'origin (0-d and (1,1)), collections whose FIRST field spans the whole bounding box or with identical extents; inserts into '
         'targets 1..8 drawn by category (inside / clipped on the top, bottom, left or right side / corner or two-sided clipping / '
         'wholly outside on each side / uniform offsets in [-9,9] / 0-d field); data = small Gaussian integers; every '
@@ -53,9 +59,15 @@ ASSUMPTIONS = ['merge/reduce raise (model: none) exactly when a group whose boun
                'row/column 0 even for wholly negative members (boundary_is_bbox_general states this caveat; boundary_is_bbox is the '
                'exact bounding box when some member reaches row >= 0 and column >= 0)',
                'insert_emb uses the one-pixel embedding (emb), not the infinite-constant reading (sem), for a one-element (1,1) '
-               'field; insert of 0-d data is refused by the implementation (ValueError) and is outside the theorems',
+               'field; insert of 0-d data is outside the theorems: the implementation accepts it only into a 0-d target at offset (0,0) '
+               'and refuses it (ValueError) into any other target; 1-D targets are refused (IndexError/ValueError) — both sampled '
+               '(insert_nd) and judged by the oracle only',
                'pixelscale/tilt bookkeeping of Field is not modelled; the harness checks only that merge refuses different '
-               'pixelscales and keeps a common one']
+               'pixelscales and keeps a common one, and that a product carries self.tilt + other.tilt (sampled); _merge drops tilt '
+               'and __mul__ drops pixelscale by design of the code (not judged)',
+               'the tests generated into Gen.FieldDispatch for __mul__/_mul_scalar and the _disjoint step are tied to the shared hand '
+               'model (Fld.mul, disjoint) by equality theorems (mul_dispatch_spec, disjoint_step_spec), not consumed by it; the '
+               'overlap/reduce/merge tests are consumed by the 0-d aware model (Model/FieldZ.lean)']
 
 def _field(rng, kmax=5, omax=6, allow_one=True, zero_d=False):
     shape = pick_shape(rng, kmax, allow_one)
@@ -85,7 +97,24 @@ def generate(rng, tier):
             a = _field(rng, zero_d=True); b = _field(rng, zero_d=True)
             if t in (2, 3) and rng.integers(0, 4):   # force (mostly partial) overlap
                 b['off'] = [a['off'][0] + int(rng.integers(-2, 3)), a['off'][1] + int(rng.integers(-2, 3))]
-            out.append({'kind': 'mul', 'a': a, 'b': b})
+            if k % 20 == 13:        # composition: the product (dropped when empty, as Plane.multiply does) goes on into another call
+                nxt = ('mul', 'merge', 'reduce', 'insert')[int(rng.integers(0, 4))]
+                near = lambda: [a['off'][0] + int(rng.integers(-3, 4)), a['off'][1] + int(rng.integers(-3, 4))]
+                cs = [_field(rng, kmax=4, allow_one=(nxt != 'merge' and rng.integers(0, 4) == 0), zero_d=True) for _ in range(int(rng.integers(1, 4)) if nxt == 'reduce' else 1)]
+                for cf in cs: cf['off'] = near()
+                if rng.integers(0, 5) == 0:          # 0-d product: two 0-d operands at the same offset (what Wavefront * Plane() gives)
+                    a = gi_field(rng, (1, 1), a['off']); a['shape'] = []; b = gi_field(rng, (1, 1), a['off']); b['shape'] = []
+                    if rng.integers(0, 2): a['off'] = [0, 0]; b['off'] = [0, 0]
+                c = {'kind': 'chain', 'a': a, 'b': b, 'then': nxt, 'cs': cs}
+                if nxt == 'insert':
+                    c['out'] = gi_field(rng, (int(rng.integers(1, 9)), int(rng.integers(1, 9))), (0, 0))
+                    c['weight'] = int(rng.integers(-2, 4)); c['intensity'] = bool(rng.integers(0, 2)); c['cs'] = []
+                    if rng.integers(0, 2): a['off'] = [int(x) for x in rng.integers(-2, 3, 2)]; b['off'] = [a['off'][0] + int(rng.integers(-1, 2)), a['off'][1] + int(rng.integers(-1, 2))]
+                out.append(c)
+            else:
+                m = {'kind': 'mul', 'a': a, 'b': b}
+                if rng.integers(0, 5) == 0: m['tilt'] = [int(rng.integers(0, 3)), int(rng.integers(0, 3))]   # number of tilt objects on each operand
+                out.append(m)
         elif t in (4, 5):
             r = int(rng.integers(0, 10))
             if r <= 1: fs = _spanning(rng, int(rng.integers(2, 5)))           # first field spans the whole box / identical extents
@@ -118,6 +147,13 @@ def generate(rng, tier):
                 out.append({'kind': 'overlap', 'fields': fs if rng.integers(0, 3) else fs[:2]})
             else:
                 out.append({'kind': 'reduce', 'fields': fs})
+        elif k % 40 == 9:           # targets that are not 2-D: 0-d (what Wavefront.field uses on a fresh wavefront) and 1-D
+            f = gi_field(rng, (1, 1), (0, 0)) if rng.integers(0, 3) else _field(rng, kmax=3, omax=1)
+            if f['shape'] == [1, 1] and rng.integers(0, 3): f['shape'] = []
+            if rng.integers(0, 3) == 0: f['off'] = [int(x) for x in rng.integers(-1, 2, 2)]
+            tshape = [] if rng.integers(0, 2) else [int(rng.integers(1, 5))]
+            o = gi_field(rng, tshape, (0, 0))
+            out.append({'kind': 'insert_nd', 'field': f, 'out': o, 'weight': int(rng.integers(-2, 4)), 'intensity': bool(rng.integers(0, 2))})
         else:
             out.append(_insert_case(rng))
     # extremes stream: huge offsets, > 32 fields, long 1-D shapes (a small sample in quick/thorough, a large one in search)
@@ -334,6 +370,8 @@ def signature(c):
     k = c['kind']
     if k == 'extent': return f"extent {c['a']} {c['b']}"
     if k == 'mul': return f"mul {c['a']['shape']}@{c['a']['off']} {c['b']['shape']}@{c['b']['off']}"
+    if k == 'chain': return f"chain {c['then']} {c['a']['shape']}@{c['a']['off']} {c['b']['shape']}@{c['b']['off']} " + ' '.join(f"{f['shape']}@{f['off']}" for f in c['cs']) + (f" -> {c['out']['shape']}" if 'out' in c else '')
+    if k == 'insert_nd': return f"insert_nd {c['field']['shape']}@{c['field']['off']} -> {c['out']['shape']} i={c['intensity']}"
     if k in ('merge', 'reduce', 'boundary', 'overlap'): return k + ' ' + ' '.join(f"{f['shape']}@{f['off']}" for f in c['fields'])
     if k == 'merge_public': return f"merge_public {c['enforce']} {c.get('ps')} " + ' '.join(f"{f['shape']}@{f['off']}" for f in c['fields'])
     return f"insert {c['field']['shape']}@{c['field']['off']} -> {c['out']['shape']} i={c['intensity']}"
@@ -344,7 +382,7 @@ def _overlap(ea, eb):
 def nontrivial(c):
     k = c['kind']
     if k == 'extent': return c['a'] != c['b']
-    if k == 'mul':
+    if k in ('mul', 'chain', 'insert_nd'):
         return True
     if k in ('merge', 'reduce', 'boundary', 'overlap', 'merge_public'): return len(c['fields']) > 1
     f, o = c['field'], c['out']
@@ -358,6 +396,12 @@ def tags(c):
         one = lambda s: len(s) < 2 or s == [1, 1]
         t.append('mul:' + ('scalar*scalar' if one(sa) and one(sb) else 'scalar*array' if one(sa) or one(sb) else 'array*array'))
         if not _overlap(ext_of(sa, c['a']['off']), ext_of(sb, c['b']['off'])): t.append('mul:disjoint')
+    if k == 'chain':
+        t.append('chain:' + c['then'])
+        if not _overlap(ext_of(c['a']['shape'], c['a']['off']), ext_of(c['b']['shape'], c['b']['off'])) and not (_is_one(c['a']) != _is_one(c['b'])): t.append('chain:empty-product')
+        if _is0d(c['a']) and _is0d(c['b']): t.append('chain:0d-product')
+    if k == 'insert_nd': t.append('insert_nd:0d-target' if c['out']['shape'] == [] else 'insert_nd:1d-target')
+    if k == 'mul' and c.get('tilt'): t.append('mul:with-tilt')
     if k == 'insert':
         f, o = c['field'], c['out']
         e = ext_of(f['shape'], f['off']); te = ext_of(o['shape'], (0, 0))
@@ -441,6 +485,11 @@ def _run_twice(op, Fs):
     if r1 is not None: res['pixelscale'] = [x.pixelscale for x in r1]
     return res
 
+def _arr_json(a):
+    rnd = lambda x: int(round(x)) if abs(x - round(x)) < 1e-9 else float(x)   # |z**2| goes through hypot: integer up to an ulp
+    re, im = np.real(a).ravel(), np.imag(a).ravel()
+    return {'shape': list(a.shape), 're': [rnd(x) for x in re], 'im': [rnd(x) for x in im]}
+
 def impl(c):
     vlib.import_lentil()
     import lentil.extent as X, lentil.field as LF
@@ -455,7 +504,45 @@ def impl(c):
                     'shift': [int(x) for x in X.intersection_shift(a, b)], 'center_a': [int(x) for x in X.array_center(a)],
                     'array_extent': [int(x) for x in X.array_extent(tuple(c['sa']), tuple(c['oa']))]}
         if k == 'mul':
-            return _run_twice(lambda Fs: Fs[0] * Fs[1], [_F(c['a']), _F(c['b'])])
+            Fa, Fb = _F(c['a']), _F(c['b'])
+            if c.get('tilt'):
+                Fa.tilt = [object() for _ in range(c['tilt'][0])]; Fb.tilt = [object() for _ in range(c['tilt'][1])]
+                ta, tb = list(Fa.tilt), list(Fb.tilt)
+            res = _run_twice(lambda Fs: Fs[0] * Fs[1], [Fa, Fb])
+            if c.get('tilt') and 'exc' not in res:
+                r = Fa * Fb
+                res['tilt_ok'] = len(r.tilt) == len(ta) + len(tb) and all(x is y for x, y in zip(r.tilt, ta + tb)) and Fa.tilt == ta and Fb.tilt == tb
+            return res
+        if k == 'chain':
+            def op(Fs):
+                p = Fs[0] * Fs[1]
+                if p.size == 0:
+                    if c['then'] == 'reduce': return LF.reduce(Fs[2:])
+                    return []
+                if c['then'] == 'mul': return p * Fs[2]
+                if c['then'] == 'merge': return LF._merge([p] + Fs[2:])
+                if c['then'] == 'reduce': return LF.reduce([p] + Fs[2:])
+            Fs = [_F(c['a']), _F(c['b'])] + [_F(f) for f in c['cs']]
+            if c['then'] != 'insert': return _run_twice(op, Fs)
+            out = np_data(c['out']).copy(); out0 = out.copy(); before = _snap(Fs)
+            p = Fs[0] * Fs[1]
+            res = {'dropped': p.size == 0, 'p0d': p.data.ndim == 0}
+            try:
+                r = LF.insert(p, out, intensity=c['intensity'], weight=c['weight']) if p.size else out
+            except Exception as e:
+                return {'exc': type(e).__name__, 'msg': str(e)[:200], 'p0d': p.data.ndim == 0, 'target_untouched': bool(np.array_equal(out, out0)),
+                        'side': {'mutated': _snap(Fs) != before}}
+            res.update({'out': _arr_json(out), 'same_object': r is out, 'side': {'mutated': _snap(Fs) != before}})
+            return res
+        if k == 'insert_nd':
+            out = np_data(c['out']).copy(); out0 = out.copy()
+            Ff = _F(c['field']); before = _snap([Ff])
+            try:
+                r = LF.insert(Ff, out, intensity=c['intensity'], weight=c['weight'])
+            except Exception as e:
+                return {'exc': type(e).__name__, 'msg': str(e)[:200], 'target_untouched': bool(np.array_equal(out, out0)),
+                        'side': {'mutated': _snap([Ff]) != before}}
+            return {'out': _arr_json(out), 'same_object': r is out, 'returned_equal': bool(np.array_equal(r, out)), 'side': {'mutated': _snap([Ff]) != before}}
         if k == 'boundary':
             Fs = [_F(f) for f in c['fields']]; before = _snap(Fs)
             return {'extent': [int(x) for x in LF.boundary(Fs)], 'side': {'mutated': _snap(Fs) != before}}
@@ -503,7 +590,13 @@ def requests(c, io):
     k = c['kind']
     if k == 'extent':
         return [{'op': 'extent.pair', 'a': c['a'], 'b': c['b']}, {'op': 'extent.array_extent', 'shape': c['sa'], 'shift': c['oa']}]
-    if k == 'mul': return [{'op': 'field.mul', 'a': to_model_field(c['a']), 'b': to_model_field(c['b'])}]
+    if k == 'mul': return [{'op': 'field.mul', 'a': to_model_field(c['a']), 'b': to_model_field(c['b'])},
+                           {'op': 'field.mulz', 'a': _zf(c['a']), 'b': _zf(c['b'])}]
+    if k == 'chain':
+        r = {'op': 'field.chain', 'a': _zf(c['a']), 'b': _zf(c['b']), 'then': c['then'], 'cs': [_zf(f) for f in c['cs']]}
+        if c['then'] == 'insert': r.update({'out': c['out'], 'weight': c['weight'], 'intensity': c['intensity']})
+        return [r]
+    if k == 'insert_nd': return []
     if k == 'boundary': return [{'op': 'field.boundary', 'fields': [to_model_field(f) for f in c['fields']]}]
     if k == 'merge': return [{'op': 'field.mergez', 'fields': [_zf(f) for f in c['fields']]}]
     if k == 'merge_public':
@@ -531,6 +624,7 @@ def compare(c, io, mo):
     k = c['kind']
     if k == 'insert' and _is0d(c['field']):
         return None if io.get('exc') == 'ValueError' else 'insert of a 0-d field: implementation did not refuse with ValueError'
+    if k == 'insert_nd': return None                                   # outside the model (2-D targets only); judged by the oracle
     if k == 'merge_public' and not mo:
         return None if io.get('exc') == 'ValueError' else 'merge of fields with different pixelscale: implementation did not refuse with ValueError'
     m = mo[0]
@@ -549,9 +643,18 @@ def compare(c, io, mo):
         return None if io['extent'] == m['extent'] else f"boundary: impl {io['extent']} model {m['extent']}"
     if k == 'overlap':
         return None if io['overlap'] == m['overlap'] else f"overlap: impl {io['overlap']} model {m['overlap']}"
-    if k in ('mul', 'merge', 'merge_public', 'reduce'):
+    if k == 'chain' and c['then'] == 'insert':
+        if io['dropped'] != m['dropped']: return f"empty product: impl {io['dropped']} model {m['dropped']}"
+        return None if io['out'] == {kk: m['out'][kk] for kk in ('shape', 're', 'im')} else 'inserted arrays differ'
+    if k in ('mul', 'merge', 'merge_public', 'reduce', 'chain'):
         d = _same_fields(c, io['fields'], m['fields'])
         if d: return d
+        if k == 'mul':
+            mz = mo[1]
+            d = _same_fields(c, io['fields'], mz['fields'])
+            if d: return '0-d aware product: ' + d
+            for x, y in zip(io['fields'], mz['fields']):
+                if _is0d(x) != bool(y.get('zd')): return f"0-d-ness of the product differs: impl shape {x['shape']} model zd={y.get('zd')}"
         key = lambda f: (f['off'], f['shape'] if len(f['shape']) == 2 else [1, 1])
         if k != 'mul':
             # per-field comparison (same grouping), and the same fields are 0-d
@@ -595,11 +698,84 @@ def _origin_refusal(fs):
     """documented scope: _merge of a group whose box is the single origin pixel raises iff some member is a (1,1) array"""
     return all(ext_of(f['shape'], f['off']) == (0, 0, 0, 0) for f in fs) and any(not _is0d(f) for f in fs)
 
+def _val(f): return complex(np_data(f).ravel()[0])
+
+def _mk(shape, off, arr):
+    arr = np.asarray(arr, dtype=complex).ravel()
+    return {'shape': list(shape), 'off': [int(off[0]), int(off[1])], 're': [int(round(x.real)) for x in arr], 'im': [int(round(x.imag)) for x in arr]}
+
+def _ref_mul(x, y):
+    """independent re-statement of the product of two fields as a field (None = empty): one-element operand = constant that
+    inherits the other's place; two one-element operands multiply only at equal offsets; the data is 0-d iff both are"""
+    if _is_one(x) and _is_one(y):
+        if x['off'] != y['off']: return None
+        return _mk([] if _is0d(x) and _is0d(y) else [1, 1], x['off'], [_val(x) * _val(y)])
+    if _is_one(x): return _mk(y['shape'], y['off'], np_data(y) * _val(x))
+    if _is_one(y): return _mk(x['shape'], x['off'], np_data(x) * _val(y))
+    ex, ey = ext_of(x['shape'], x['off']), ext_of(y['shape'], y['off'])
+    if not _overlap(ex, ey): return None
+    box = (max(ex[0], ey[0]), min(ex[1], ey[1]), max(ex[2], ey[2]), min(ex[3], ey[3]))
+    d = canvas([x], box) * canvas([y], box)
+    return _mk(d.shape, (box[0] + d.shape[0] // 2, box[2] + d.shape[1] // 2), d)
+
+def _oracle_chain(c, io):
+    p = _ref_mul(c['a'], c['b'])
+    cs = c['cs']; nxt = c['then']
+    if nxt == 'insert':
+        if p is not None and _is0d(p):
+            if io.get('exc') != 'ValueError': return 'insert of a 0-d product did not refuse with ValueError'
+            return None if io.get('target_untouched') else 'refused insert modified the target'
+        if 'exc' in io: return f"chain product->insert raised {io['exc']}: {io.get('msg')}"
+        if io['dropped'] != (p is None): return f"product empty = {io['dropped']}, reference says {p is None}"
+        if not io['same_object']: return 'insert did not return the array it was given'
+        S0, S1 = c['out']['shape']
+        box = (-(S0 // 2), -(S0 // 2) + S0 - 1, -(S1 // 2), -(S1 // 2) + S1 - 1)
+        e = canvas([p] if p is not None else [], box)
+        add = ((e.real ** 2 + e.imag ** 2) if c['intensity'] else e) * c['weight']
+        return None if np.array_equal(np_data(io['out']), np_data(c['out']) + add) else 'product->insert did not add the part of (emb a · emb b) inside the array'
+    if nxt == 'mul':
+        want = [q for q in [_ref_mul(p, cs[0]) if p is not None else None] if q is not None]
+    elif nxt == 'merge':
+        want = None if p is None else [p] + cs
+    else:
+        want = ([p] if p is not None else []) + cs
+    if 'exc' in io:
+        grp = want or []
+        org = [f for f in grp if ext_of(f['shape'], f['off']) == (0, 0, 0, 0)]
+        if nxt in ('merge', 'reduce') and len(org) >= 2 and _origin_refusal(org) and (nxt == 'reduce' or len(org) == len(grp)): return None   # documented scope
+        return f"chain product->{nxt} raised {io['exc']}: {io.get('msg')}"
+    if want is None: return None if io['fields'] == [] else 'empty product was not dropped'
+    box = box_of([want, io['fields'], [c['a'], c['b']]])
+    if not np.array_equal(canvas(io['fields'], box), canvas(want, box)): return f'product->{nxt}: result is not the {"product" if nxt == "mul" else "sum"} of the embeddings'
+    if nxt == 'mul' and len(io['fields']) != len(want): return 'product->mul: emptiness differs from the reference'
+    if nxt == 'reduce':
+        for x, y in itertools.combinations(io['extents'], 2):
+            if _overlap(x, y): return f'reduced fields overlap: {x} {y}'
+        if len(io['fields']) != len(_ref_groups([ext_of(f['shape'], f['off']) for f in want])): return 'product->reduce: number of fields differs from the reference grouping'
+    return None
+
 def oracle(c, io):
     """the property's own statement evaluated on the implementation's result, with an independent reference"""
     k = c['kind']
     sd = _side(k, io)
     if sd: return sd
+    if k == 'chain':
+        if 'fields' in io:
+            for f, e in zip(io['fields'], io['extents']):
+                if list(ext_of(f['shape'], f['off'])) != e: return 'chain: cached extent of a result differs from its shape/offset'
+        return _oracle_chain(c, io)
+    if k == 'insert_nd':
+        f, o = c['field'], c['out']
+        if _is0d(f) and o['shape'] == [] and f['off'] == [0, 0]:
+            # the one supported non-2-D case (Wavefront.field on a fresh wavefront): 0-d into 0-d at the origin
+            if 'exc' in io: return f"insert of a 0-d field into a 0-d target raised {io['exc']}: {io.get('msg')}"
+            if not io['same_object']: return 'insert did not return the array it was given'
+            v = _val(f); add = ((v.real ** 2 + v.imag ** 2) if c['intensity'] else v) * c['weight']
+            return None if complex(np_data(io['out']).ravel()[0]) == _val(o) + add else 'insert 0-d into 0-d did not add the value'
+        # everything else with a 0-d / 1-D target is outside the documented interface: it must refuse and leave the target alone
+        if 'exc' not in io: return f"insert into a {len(o['shape'])}-d target answered instead of refusing"
+        return None if io.get('target_untouched') else 'refused insert modified the target'
+    if k == 'mul' and io.get('tilt_ok') is False: return "product does not carry the operands' tilt lists (self.tilt + other.tilt)"
     if k == 'extent':
         if 'exc' in io: return f"extent query raised {io['exc']}"
         a, b = c['a'], c['b']
